@@ -23,6 +23,8 @@ def schedules(job, plan):
     head = [cr.create_line(job["cfg"]), "limit %d" % N]
     one = head + ["proc 1 1 1 %d %d" % (N, est + 100), "hash"]
     push = list(head)
+    if rng.chance(.35):
+        push.append("stale %d" % rng.choice([1, 37, 300, 100000]))
     cap = [10 ** 9, 60, 3000, 10 ** 9][rng.below(4)]
     for i in range(rng.choice([3, 10, 40, 150])):
         il = min(rng.choice(sizes) if rng.chance(.6) else rng.below(3000), cap)
